@@ -19,7 +19,7 @@ import (
 
 type c01Pod struct {
 	Other bool   `json:"of_other_replica_set"`
-	State string `json:"state"` // pending-unbound running failed unknown terminating
+	State string `json:"state"`    // pending-unbound running failed unknown terminating
 	Age   int    `json:"age_rank"` // 0 older, 1 equal, 2 newer (relative to the other pod of the node)
 }
 
